@@ -5,6 +5,7 @@
    the as-built alternative). *)
 EXTENDS GatewayHost, Json
 CONSTANTS Devs,      \* open deviations (as-built alternative printed for them)
+          Lite,      \* quick tier: in block "rest" UseSubdomains is on and port/wildcard vary together
           Blocks     \* subset of {"ids", "rest"}:
                      \* "ids" : every identifier x namespace x host form x relevant configuration
                      \* "rest": representative identifiers x remainders x queries x port x wildcard host
@@ -70,27 +71,34 @@ Pick2 == /\ pc = 1 /\ pc' = 2 /\ Block' = Block
               /\ req.hf = "other" => sub /\ inl /\ paths = "both" /\ ~xfh
               /\ req.hf # "other" => ~nodl
               /\ Block = "rest" => ~xfh
+              /\ Block = "rest" /\ Lite => sub /\ (port <=> wild)
               /\ req' = [req EXCEPT !.https = https, !.xfh = xfh, !.segs = segs, !.q = q, !.port = port]
               /\ cfg' = [cfg EXCEPT !.sub = sub, !.inl = inl, !.paths = paths, !.nodl = nodl, !.wild = wild]
 Next == Pick1 \/ Pick2
 Spec == Init /\ [][Next]_vars
 Chosen == pc = 2
 
-\* ---- phase M: the property holds for the ideal routing
-PropertyHolds == Chosen => Property(cfg, req, {})
-\* every difference of the as-built routing is attributed to a named deviation
-DiffIsAttributed == Chosen => (Full(cfg, req, AllDevs) # Full(cfg, req, {}) => Fired(cfg, req, AllDevs) # {})
-\* the property is sensitive to every occurrence of a deviation: wherever one matters, the as-built
-\* outcome violates the property (the invariants above are not vacuous)
-DevsDetected == Chosen => (Fired(cfg, req, AllDevs) # {} => ~Property(cfg, req, AllDevs))
-
-\* ---- phase G
+\* ---- phase M and phase G in one pass: every routing of a case is computed once.
+\*  PropertyHolds    : the property holds for the ideal routing (D = {})
+\*  DiffIsAttributed : every difference of the as-built routing is attributed to a named deviation
+\*  DevsDetected     : wherever a deviation matters, the as-built outcome violates the property
+\*                     (so the property invariants are not vacuous)
+Fail(what) == PrintT(<<"FAILED", what, cfg, req>>) /\ FALSE
 RECURSIVE SeqOf(_)
 SeqOf(S) == IF S = {} THEN <<>> ELSE LET e == CHOOSE e \in S : TRUE IN <<e>> \o SeqOf(S \ {e})
 ReqJ == [req EXCEPT !.recs = SeqOf(req.recs)]
-Case == LET id == Full(cfg, req, {})  ab == Full(cfg, req, Devs) IN
-        IF ab = id THEN [cfg |-> cfg, req |-> ReqJ, out |-> id[1], follow |-> id[2]]
-        ELSE [cfg |-> cfg, req |-> ReqJ, out |-> id[1], follow |-> id[2],
-              alt |-> ab[1], altfollow |-> ab[2], devs |-> SeqOf(Fired(cfg, req, Devs))]
-Emit == ~Chosen \/ PrintT(<<"BEHAVIOUR", ToJson(Case)>>)
+Checks ==
+  ~Chosen \/
+  LET id  == Full(cfg, req, {})
+      all == Full(cfg, req, AllDevs)
+      ab  == IF Devs = AllDevs THEN all ELSE IF Devs = {} THEN id ELSE Full(cfg, req, Devs)
+      fa  == IF all = id THEN {} ELSE {d \in AllDevs : all # Full(cfg, req, AllDevs \ {d})}
+      fd  == IF ab = id THEN {} ELSE IF Devs = AllDevs THEN fa ELSE {d \in Devs : ab # Full(cfg, req, Devs \ {d})}
+  IN /\ PropertyOf(cfg, req, id[1], id[2]) \/ Fail("PropertyHolds")
+     /\ (all # id => fa # {}) \/ Fail("DiffIsAttributed")
+     /\ (fa # {} => ~PropertyOf(cfg, req, all[1], all[2])) \/ Fail("DevsDetected")
+     /\ PrintT(<<"BEHAVIOUR", ToJson(
+           IF ab = id THEN [cfg |-> cfg, req |-> ReqJ, out |-> id[1], follow |-> id[2]]
+           ELSE [cfg |-> cfg, req |-> ReqJ, out |-> id[1], follow |-> id[2],
+                 alt |-> ab[1], altfollow |-> ab[2], devs |-> SeqOf(fd)])>>)
 =============================================================================
